@@ -209,6 +209,15 @@ func buildPrelude() string {
 	sb.WriteString("0")
 	sb.WriteString(strings.Repeat(")", 32))
 	sb.WriteString(")\n")
+	for _, w := range []int{64, 8} {
+		fmt.Fprintf(&sb, "(define-fun shamt%d ((k Int)) (_ BitVec %d) ", w, w)
+		for i := 0; i < w; i++ {
+			fmt.Fprintf(&sb, "(ite (= k %d) (_ bv%d %d) ", i, i, w)
+		}
+		fmt.Fprintf(&sb, "(_ bv%d %d)", w, w)
+		sb.WriteString(strings.Repeat(")", w))
+		sb.WriteString(")\n")
+	}
 	sb.WriteString("(define-fun wrapS ((x Int) (m Int)) Int (let ((r (mod x (* 2 m)))) (ite (< r m) r (- r (* 2 m)))))\n")
 	sb.WriteString("(define-fun imin ((a Int) (b Int)) Int (ite (<= a b) a b))\n")
 	sb.WriteString("(define-fun imax ((a Int) (b Int)) Int (ite (>= a b) a b))\n")
